@@ -754,13 +754,14 @@ func c20Candidates(c *Ctx, P, cl *ssa.Function) {
 		g := fi.GuardsOf(stName)
 		okFile := desc(stFile.Val) == p && stFile.Block() == stName.Block()
 		parsed := PN + "(call:invoke:io/fs.DirEntry.Name(" + d + "))"
-		okName := desc(stName.Val) == parsed+"#0"
+		parsed0 := callForm(c20NameParser(w), 0, "call:invoke:io/fs.DirEntry.Name("+d+")")
+		okName := desc(stName.Val) == parsed0
 		if !okName {
 			// through a captured variable assigned in this invocation on every path to the store
 			if un, ok := stName.Val.(*ssa.UnOp); ok {
 				if fv, ok := un.X.(*ssa.FreeVar); ok {
 					for _, cp := range caps {
-						if cp.fv == fv.Name() && desc(cp.st.Val) == parsed+"#0" && cp.st.Block().Dominates(stName.Block()) {
+						if cp.fv == fv.Name() && desc(cp.st.Val) == parsed0 && cp.st.Block().Dominates(stName.Block()) {
 							okName = true
 							// no other store to it in between on the path
 							for _, cp2 := range caps {
@@ -783,7 +784,7 @@ func c20Candidates(c *Ctx, P, cl *ssa.Function) {
 		c.OK("discovery/fallback-pair", rule+" (no fallback exit present)", w.FnPos(P))
 	} else {
 		f, n := desc(fallback.Ret.Results[0]), desc(fallback.Ret.Results[1])
-		okN := n == PN+"(call:path/filepath.Base("+f+"))#0"
+		okN := n == callForm(c20NameParser(w), 0, "call:path/filepath.Base("+f+")")
 		okL := strings.HasSuffix(f, "[const:0]") && labelHas(fallback.Checked, "EQ(len("+strings.TrimSuffix(f, "[const:0]")+"),const:1)")
 		okE := labelHas(fallback.Checked, "EQ("+PN+"(call:path/filepath.Base("+f+"))#err,nil)") && labelHas(fallback.Checked, "EQ("+SETX+"("+f+")#err,nil)")
 		_, okF := hasLabel(fallback.Checked, "F(alloc:bool<")
